@@ -235,7 +235,7 @@ def run(ctx, replay):
     jobs = []
 
     # ---- S: every tree of the bounded grammar x sorts, per world, split over processes
-    s_sizes = {"ws": (10, 3), "wp": (7, 2), "wf": (8, 2)} if quick else {"ws": (14, 6), "wp": (14, 10), "wf": (14, 10)}
+    s_sizes = {"ws": (9, 3), "wp": (6, 2), "wf": (7, 2)} if quick else {"ws": (14, 6), "wp": (14, 10), "wf": (14, 10)}
     for w, (msize, parts) in s_sizes.items():
         for p in range(parts):
             jobs.append(("S", lambda w=w, msize=msize, parts=parts, p=p: ctx.tlc_check(
@@ -244,7 +244,7 @@ def run(ctx, replay):
     sens = [("OrAppendsTypes", "ws", "SourceCoversMatches", 8), ("SortedSourceDropsSome", "ws", "SourceCoversMatches", 8),
             ("DeleteDateIsModtime", "ws", "MatcherAgrees", 14), ("ContentClaimTimeIgnored", "wf", "MatcherAgrees", 20),
             ("RecursiveWholeDir", "wf", "MatcherAgrees", 20),
-            ('DirChildrenCappedByLimit", "cap2', "wf", "MatcherAgrees", 16),
+            ('DirChildrenCappedByLimit", "cap1', "wf", "MatcherAgrees", 13),
             ("TypedSourceRepeats", "wp", "TypedSourceOnce", 7)]
     def sens_job(dev, w, inv, msize):
         r = ctx.tlc_check("Search", "Search.cfg", overrides=wconst(w, MenuSize=msize, Deviations='{"%s"}' % dev), workers=1,
@@ -257,7 +257,7 @@ def run(ctx, replay):
         name = dev.split('"')[0]
         mode = "build"
         if name == "DirChildrenCappedByLimit":
-            q["limit"], mode = 2, "classic"
+            q["limit"], mode = 1, "classic"     # the cap is the query's own limit; only shows without a corpus
         qf = ctx.path("q_cex_%s.jsonl" % name)
         vlib.write_jsonl(qf, [q])
         out = run_queries(ctx, drv, w, qf, mode, "cex_" + name)
